@@ -196,6 +196,12 @@ pub fn cases(tier: Tier) -> Vec<Case> {
             out.push(Case { id: format!("{}:{}", s.id, how), insts, raw: None, version: 0x0001_0300, bound: 5000 });
         }
     }
+    // (a') U-scale: sizes, counts and ids on both sides of every threshold
+    for s in universe::scale_shapes(tier) {
+        for (how, insts) in frame(&s.inst).into_iter().take(1) {
+            out.push(Case { id: format!("{}:{}", s.id, how), insts, raw: None, version: 0x0001_0300, bound: 5000 });
+        }
+    }
     // (d) 64-bit and narrow literals behind their types (module scope, plus a switch inside a block)
     let ctx = type_context();
     for (pre, s) in context_shapes() {
